@@ -165,6 +165,12 @@ def parseCIValue (v : Json) : Except String CIValue :=
         | some x => (asRat x).map some
       pure (.tup x (← optSym t "unit") (← optSym t "category"))
 
+def parseSlice (j : Json) : Except String PySlice := do
+  pure ⟨← optInt j "start", ← optInt j "stop", ← optInt j "step"⟩
+
+def parseScalar (s : Json) : Except String Scalar := do
+  pure ⟨← asQty (← s.getObjVal? "q"), ← getRat s "v"⟩
+
 /-- an operation (everything but the source) -/
 def parseOp (kind : String) (j : Json) : Except String Op := do
   match kind with
@@ -189,6 +195,26 @@ def parseOp (kind : String) (j : Json) : Except String Op := do
     | "category" => pure (.assign .category)
     | "quantity_type" => pure (.assign .quantityType)
     | a => throw s!"unknown attribute {a}"
+  | "createCopyKw" =>
+    let extra ← match ← getStr j "extra" with
+      | "dimension" => pure ExtraKw.dimension
+      | "value" => pure ExtraKw.value
+      | "unit_database" => pure ExtraKw.unitDatabase
+      | e => throw s!"unknown extra keyword {e}"
+    pure (.createCopyKw (← optValArg j "values") (← optSym j "unit") (← optSym j "category") extra)
+  | "len" => pure .len
+  | "iter" => pure .iter
+  | "getItem" => pure (.getItem (← getInt j "index"))
+  | "getSlice" => pure (.getSlice (← parseSlice (← j.getObjVal? "slice")))
+  | "checkValues" =>
+    match ← optValArg j "values" with
+    | none => throw "checkValues needs values"
+    | some v => pure (.checkValues v (← optInt j "dimension"))
+  | "eq" =>
+    match opt j "other" with
+    | some (.str "foreign") => pure (.eq .foreign)
+    | some i => pure (.eq (.store (← asInt i).toNat))
+    | none => throw "eq needs other"
   | _ => throw s!"unknown operation {kind}"
 
 /-! ### magnitudes for the float comparison -/
@@ -301,6 +327,15 @@ def opInDomainOk (store : List Obj) (src : Obj) : Op → Bool
 
 def F : OpFunc := opFuncSimple theDb
 
+/-- a value that is neither an array nor a Scalar -/
+def plainJ : Out → Json
+  | .int n => Json.mkObj [("ok", Json.mkObj [("int", intJ n)])]
+  | .num x => Json.mkObj [("ok", Json.mkObj [("num", ratJ x)])]
+  | .vals v => Json.mkObj [("ok", Json.mkObj [("seq", .str (kindStr v.kind)), ("xs", Json.arr (v.xs.map ratJ).toArray)])]
+  | .bool b => Json.mkObj [("ok", Json.mkObj [("bool", .bool b)])]
+  | .unit => Json.mkObj [("ok", Json.mkObj [("none", .bool true)])]
+  | _ => Json.mkObj [("bad", .str "not a plain value")]
+
 def answerOp (store : List Obj) (src : Obj) (o : Op) : Except String Json :=
   if !opInDomainOk store src o then .error "arithmetic with a derived result is not modelled by this engine" else
   match runOp theDb F store src o with
@@ -310,6 +345,25 @@ def answerOp (store : List Obj) (src : Obj) (o : Op) : Except String Json :=
     match o with
     | .indexAsScalar i _ => .ok (scalarJ s (scalarMag theDb src i s))
     | _ => .ok (scalarJ s (absR s.v))
+  | .ok out => .ok (plainJ out)
+
+/-- class, dimension, length and container of an arithmetic result whose quantity is derived: the model's
+`doOperation` with the size-only `operation_func` -/
+def answerShape (src : Obj) (o : Op) : Except String Json :=
+  match o with
+  | .arith op (.operand p l) =>
+    match doOperation opFuncShape src op p l with
+    | .error e => .ok (errJ e)
+    | .ok r => .ok (Json.mkObj [("ok", Json.mkObj [("dim", intJ r.st.dim), ("len", intJ r.st.vals.xs.length),
+        ("k", .str (kindStr r.st.vals.kind))])])
+  | _ => .error "arithShape takes an arithmetic operation with an explicit operand"
+
+def answerFromScalars (j : Json) : Except String Json := do
+  let cls ← asCls (← j.getObjVal? "cls")
+  let scalars ← (← getArr j "scalars").toList.mapM parseScalar
+  match fromScalars theDb cls scalars (← optSym j "unit") (← optSym j "category") with
+  | .error e => pure (errJ e)
+  | .ok o => pure (objShapeJ o)
 
 def answerRoute (r : Route) : Json :=
   match runRoute theDb r with
@@ -321,13 +375,20 @@ def parseCmd (j : Json) : Except String Cmd :=
   match opt j "route" with
   | some (.str kind) => do pure (.make (← parseRoute kind j))
   | some _ => .error "route must be a string"
-  | none => do
+  | none =>
+    match opt j "fromScalars" with
+    | some _ => do
+      let cls ← asCls (← j.getObjVal? "cls")
+      let scalars ← (← getArr j "scalars").toList.mapM parseScalar
+      pure (.fromScalars cls scalars (← optSym j "unit") (← optSym j "category"))
+    | none => do
     let kind ← getStr j "do"
     let src ← getInt j "src"
     pure (.op src.toNat (← parseOp kind j))
 
 def cmdInDomain (store : List Obj) : Cmd → Bool
   | .make _ => true
+  | .fromScalars _ _ _ _ => true
   | .op src o =>
     match store[src]? with
     | some s => opInDomainOk store s o
@@ -342,6 +403,7 @@ def historyJ : List Obj → List Cmd → Except String (List Json)
       | .error e => errJ e
       | .ok (.obj o) => objShapeJ o
       | .ok (.scalar _) => Json.mkObj [("ok", Json.mkObj [("scalar", .bool true)])]
+      | .ok _ => Json.mkObj [("ok", Json.mkObj [("plain", .bool true)])]
     match historyJ r.1 cs with
     | .error e => .error e
     | .ok rest => .ok (out :: rest)
@@ -362,6 +424,77 @@ def parseSetter (j : Json) : Except String Setter := do
   | "domain" => pure (.domain a)
   | s => throw s!"unknown setter {s}"
 
+def parseElem (j : Json) : Except String Elem :=
+  match j with
+  | .arr a => do pure (.point (← a.toList.mapM asRat))
+  | _ => do pure (.num (← asRat j))
+
+/-- the content of one array of a curve request: `id`, container `k`, `unit`, `elems` -/
+def parseArrData (j : Json) : Except String (Nat × ArrData) := do
+  let id ← getInt j "id"
+  let k ← asKind (← getStr j "k")
+  let elems ← (← getArr j "elems").toList.mapM parseElem
+  pure (id.toNat, ⟨k, elems, ← getSym j "unit"⟩)
+
+def contentOf (arrs : List (Nat × ArrData)) : Content := fun a =>
+  match arrs.find? (fun p => p.1 == a.id) with
+  | some p => p.2
+  | none => ⟨.list, [], 0⟩
+
+def parseCurveOp (j : Json) : Except String CurveOp :=
+  match opt j "set" with
+  | some _ => do pure (.set (← parseSetter j))
+  | none =>
+    match opt j "get" with
+    | some i => do pure (.getItem (← asInt i))
+    | none =>
+      match opt j "slice" with
+      | some sl => do pure (.getSlice (← parseSlice sl))
+      | none =>
+        match opt j "length" with
+        | some _ => pure .length
+        | none =>
+          match opt j "repr" with
+          | some _ => pure .repr
+          | none => .error "unknown curve operation"
+
+def elemJ : Elem → Json
+  | .num x => ratJ x
+  | .point xs => Json.arr (xs.map ratJ).toArray
+
+def seqJ (p : Kind × List Elem) : Json :=
+  Json.mkObj [("k", .str (kindStr p.1)), ("elems", Json.arr (p.2.map elemJ).toArray)]
+
+def curveOutJ : CurveOut → Json
+  | .done => Json.mkObj [("done", .bool true)]
+  | .item d im => Json.mkObj [("item", Json.arr #[elemJ d, elemJ im])]
+  | .slices d im => Json.mkObj [("slices", Json.arr #[seqJ d, seqJ im])]
+  | .length n => Json.mkObj [("length", intJ n)]
+  | .repr r => Json.mkObj [("repr", Json.mkObj [("iunit", symJ r.imageUnit), ("dunit", symJ r.domainUnit),
+      ("items", Json.arr (r.items.map (fun p => Json.arr #[elemJ p.1, elemJ p.2])).toArray),
+      ("ellipsis", .bool r.ellipsis)])]
+
+/-- every call of a curve history: its outcome and the arrays the curve holds afterwards -/
+def curveOpSteps (h : Content) : Curve → List CurveOp → List Json
+  | _, [] => []
+  | c, o :: os =>
+    let c' := c.next o
+    let common := [("image", Json.str (toString c'.image.id)), ("domain", .str (toString c'.domain.id)),
+      ("ilen", .str (toString c'.image.len)), ("dlen", .str (toString c'.domain.len))]
+    let this : Json := match c.answer h o with
+      | .error e => Json.mkObj (("res", .str e.name) :: common)
+      | .ok out => Json.mkObj (("res", .str "ok") :: ("out", curveOutJ out) :: common)
+    this :: curveOpSteps h c' os
+
+/-- the references of a request and their content must tell the same lengths -/
+def faithfulOn (h : Content) (refs : List ArrRef) : Bool := refs.all (fun a => (h a).elems.length == a.len)
+
+def curveOpRefs : List CurveOp → List ArrRef
+  | [] => []
+  | .set (.image a) :: os => a :: curveOpRefs os
+  | .set (.domain a) :: os => a :: curveOpRefs os
+  | _ :: os => curveOpRefs os
+
 def curveSteps : Curve → List Setter → List Json
   | _, [] => []
   | c, s :: ss =>
@@ -376,13 +509,36 @@ def handleOne (j : Json) : Except String Json := do
   let op ← getStr j "op"
   match op with
   | "init" | "cwq" | "cea" | "internal" => pure (answerRoute (← parseRoute op j))
-  | "createCopy" | "pickle" | "arith" | "changingIndex" | "indexAsScalar" | "assign" =>
+  | "createCopy" | "pickle" | "arith" | "changingIndex" | "indexAsScalar" | "assign" | "createCopyKw" | "len" | "iter"
+  | "getItem" | "getSlice" | "checkValues" | "eq" =>
     let cls ← asCls (← j.getObjVal? "cls")
     let st ← asState (← j.getObjVal? "src")
-    answerOp [] ⟨cls, st⟩ (← parseOp op j)
+    -- `others`: the arrays an `eq` refers to by position
+    let others ← match opt j "others" with
+      | some (.arr a) => a.toList.mapM (fun x => do
+          let c ← asCls (← x.getObjVal? "cls")
+          let s ← asState (← x.getObjVal? "src")
+          pure (⟨c, s⟩ : Obj))
+      | _ => pure []
+    answerOp others ⟨cls, st⟩ (← parseOp op j)
   | "history" =>
     let cmds ← (← getArr j "cmds").toList.mapM parseCmd
     pure (Json.mkObj [("steps", Json.arr (← historyJ [] cmds).toArray)])
+  | "arithShape" =>
+    let cls ← asCls (← j.getObjVal? "cls")
+    let st ← asState (← j.getObjVal? "src")
+    answerShape ⟨cls, st⟩ (← parseOp "arith" j)
+  | "fromScalars" => answerFromScalars j
+  | "curveOps" =>
+    let image ← parseRef (← j.getObjVal? "image")
+    let domain ← parseRef (← j.getObjVal? "domain")
+    let arrs ← (← getArr j "arrs").toList.mapM parseArrData
+    let ops ← (← getArr j "ops").toList.mapM parseCurveOp
+    let h := contentOf arrs
+    if !faithfulOn h (image :: domain :: curveOpRefs ops) then throw "content and references disagree on a length" else
+    match Curve.new image domain with
+    | .error e => pure (Json.mkObj [("new", .str e.name), ("steps", Json.arr #[])])
+    | .ok c => pure (Json.mkObj [("new", .str "ok"), ("steps", Json.arr (curveOpSteps h c ops).toArray)])
   | "curve" =>
     let image ← parseRef (← j.getObjVal? "image")
     let domain ← parseRef (← j.getObjVal? "domain")
